@@ -29,7 +29,7 @@ QUICK_SHAPES = ['line4', 'grid3x2', 'gen3x2x2', 'gen3x0x2', 'gen0x2x0', 'gen2x2x
 KINDS = ['callable', 'list', 'ndarray', 'constant', 'lookup_rank', 'lookup_np_rank', 'lookup_3d', 'constant_tuple',
          'constant_list', 'callable_mixed', 'lookup_3d_reused', 'constant_subclass', 'callable_shift',
          'lookup_3d_tuples', 'lookup_3d_mixed', 'lookup_3d_reassigned', 'callable_mapping', 'lookup_3d_caller_edit',
-         'constant_callable', 'lookup_np_oversize']
+         'constant_callable', 'lookup_np_oversize', 'lookup_np_fortran', 'lookup_3d_mixed_values']
 
 
 class Either:
@@ -119,6 +119,8 @@ class Harness:
             else:
                 ops += [['add', n, k] for k in self.kinds]
         ops.append(['remove', 'zz'])
+        # unknown names that happen to be attributes of the table object (pandas.DataFrame.size, .T, .index)
+        ops += [['remove', nm] for nm in ('size', 'T', 'index')]
         return ops
 
     def known(self, w):
@@ -161,6 +163,17 @@ class Harness:
         full = [[[f(ki, (x, y, z)) for z in range(ex[2])] for y in range(ex[1])] for x in range(ex[0])]
         if kind == 'lookup_3d':
             return Envs.LookupGenerator(full), vals, None
+        if kind == 'lookup_np_fortran':
+            # the same table in column-major memory order / as a transposed view of its transpose
+            arr = np.asfortranarray(np.array(full)) if ki % 2 else np.ascontiguousarray(np.array(full).T).T
+            return Envs.LookupGenerator(arr), vals, None
+        if kind == 'lookup_3d_mixed_values':
+            # a nested-list table whose ENTRIES are of mixed kinds (numbers, strings, a bool): each cell keeps its own
+            def mv(p):
+                i = p[0] + 2 * p[1] + 3 * p[2]
+                return [f(ki, p), f'c{i}', True, f(ki, p) + 0.5][i % 4]
+            tbl = [[[mv((x, y, z)) for z in range(ex[2])] for y in range(ex[1])] for x in range(ex[0])]
+            return Envs.LookupGenerator(tbl), [mv(p) for p in self.table], None
         if kind == 'lookup_np_oversize':
             # one raster shared by several worlds: a numpy table LARGER than this world along x and y (and z): each cell
             # takes the entry at its own coordinates
